@@ -228,6 +228,9 @@ class DT(Inverter):
     async def read_sensor(self, sensor_id: str) -> Any:
         sensor: Sensor = self._get_sensor(sensor_id)
         if sensor:
+            if type(sensor).read is not Sensor.read:
+                # value computed from several registers can not be read individually, use the bulk read
+                return (await self.read_runtime_data()).get(sensor_id)
             return await self._read_sensor(sensor)
         if sensor_id.startswith("modbus"):
             response = await self._read_from_socket(self._read_command(int(sensor_id[7:]), 1))
